@@ -1425,16 +1425,10 @@ fn exec(op: &str, args: &[Sexp]) -> Ans {
 }
 
 /// the fragment of `Thm.C02.class_write_read_partial` as far as it is visible in a tree that was read (valid names, flags within
-/// their masks and well-typed constants hold for every duke tree): no `Code`, no annotations, no `Record`, no `Module`
+/// their masks, well-typed constants and annotations nested at most 255 levels hold for every duke tree that was read): no `Code`,
+/// no `Record`, no `Module`
 fn in_writer_fragment(c: &ClassFile) -> bool {
-	c.runtime_visible_annotations.is_empty() && c.runtime_invisible_annotations.is_empty()
-		&& c.runtime_visible_type_annotations.is_empty() && c.runtime_invisible_type_annotations.is_empty()
-		&& c.module.is_none() && c.record_components.is_empty()
-		&& c.fields.iter().all(|f| f.runtime_visible_annotations.is_empty() && f.runtime_invisible_annotations.is_empty()
-			&& f.runtime_visible_type_annotations.is_empty() && f.runtime_invisible_type_annotations.is_empty())
-		&& c.methods.iter().all(|m| m.code.is_none() && m.annotation_default.is_none()
-			&& m.runtime_visible_annotations.is_empty() && m.runtime_invisible_annotations.is_empty()
-			&& m.runtime_visible_type_annotations.is_empty() && m.runtime_invisible_type_annotations.is_empty())
+	c.module.is_none() && c.record_components.is_empty() && c.methods.iter().all(|m| m.code.is_none())
 }
 
 // ------------------------------------------------------------------------------------------------ generators
@@ -2296,11 +2290,10 @@ fn gen_class_write(r: &mut Rng, thorough: bool, out: &mut Out) {
 			out.op("class-write", &[hex(&bytes)]);
 			out.op("oracle-class-write-read", &[hex(&bytes)]);
 		}
-		// the same class cut down to the proved fragment of `class_write_read_partial`: no Code, annotations, Record, Module
+		// the same class cut down to the proved fragment of `class_write_read_partial`: no Code, Record, Module
 		let mut f = g.clone();
-		f.rva.clear(); f.ria.clear(); f.rvta.clear(); f.rita.clear(); f.records.clear(); f.module = None;
-		for x in &mut f.fields { x.rva.clear(); x.ria.clear(); x.rvta.clear(); x.rita.clear(); }
-		for m in &mut f.methods { m.code = None; m.annotation_default = None; m.rva.clear(); m.ria.clear(); m.rvta.clear(); m.rita.clear(); m.param_annos.clear(); }
+		f.records.clear(); f.module = None;
+		for m in &mut f.methods { m.code = None; }
 		let ch = Choices::random(r);
 		if let Ok(bytes) = catch_unwind(AssertUnwindSafe(|| assemble(&f, &ch, r))) {
 			out.stats.hit("class-write:fragment-class");
